@@ -3,7 +3,7 @@ import random
 import string
 
 TPL = {"orig:P": "P0 {x:name}|{y}", "orig:C": "C0 {y:line}|{x}", "o1": "O1 {x:name} at {y:line}", "o2": "O2 {x}",
-       "kw": "KW {x:name}!"}
+       "kw": "KW {x:name}!", "kwn": "KN {x:>{w}}|{y:line}|{x:<{w}}."}
 TTPL = {"o1": "O1 {name:name} at {location.line:line}", "o2": "O2 {name}", "kw": "KW {name:name}!"}
 TITLE = {"orig:P": "Title P", "orig:C": "Title C", "o1": "Title one", "o2": "Title two"}
 
@@ -76,7 +76,7 @@ class World:
         from pedal.core.location import Location
         if c == "T":
             return {"location": Location(5), "name": "nm"}
-        return {"x": "vx", "y": 7}
+        return {"x": "vx", "y": 7, "w": 6}
 
     def expected_message(self, c, m, i):
         """Oracle for MessageDerivation: explicit message, else the template with every field substituted
@@ -97,6 +97,8 @@ class World:
             v = fields[parts[0]]
             for p in parts[1:]:
                 v = getattr(v, p)
+            if spec and "{" in spec:
+                spec = spec.format(**fields)        # str.format expands replacement fields nested in the spec
             if spec in fmt.available:
                 out.append(format(getattr(fmt, spec)(v), ""))
             else:
@@ -117,6 +119,8 @@ class World:
                     kw["message"] = "explicit message %d" % i
                 elif mk == "kwtemplate":
                     kw["message_template"] = (TTPL if c == "T" else TPL)["kw"]
+                elif mk == "kwnested":
+                    kw["message_template"] = TPL["kwn"]
                 if a["delay"]:
                     kw["delay_condition"] = True
                 if c == "T":
